@@ -14,11 +14,13 @@ requests
   `fd <header> <frows> <fcols> F`                        FreqDirect.fsolve
   `psd <su|fd> <header> <p> t_frc(n·p complex) forcepsd(p·nf real) <q> <fa fv fd ff> drma(q·n) drmv drmd drmf(q·p) rbduf elduf`
        (a drm whose flag is 0 is absent from the line; rbduf, elduf real floats)
+  `state <su|fd> <header>`                                the constructor bookkeeping of a whole problem
   `layout <n> <rf> <rb> <mask n·(0|1)> <eigPath 0|1> <mNone 0|1> <uncReal 0|1>`
        the constructor bookkeeping alone: `mask` is the automatic rigid-body detection result per equation
   `gauss <n> A(n·n) b(n)`                                 the stand-in linear solver
 replies
   `ok d(n·nf) v a` (complex, row major) | `ok psd(q·nf real) rms(q real)` | `ok x(n)` | `error <kind>` | `bad-op`
+  state: `ok unc | nonrf | rb | el | _rb | _el [| kdof | mRows | state _rb | state _el | imrb | invm | rbMassRows | elRows]`
   layout: `ok nonrf | rb | el | _rb | _el | kdof | mRows | state _rb | state _el | imrb | invm | rbMassRows | elRows`
           (index lists separated by `|`, `-` for an absent one) -/
 open PyYetiVerif.Freq
@@ -178,6 +180,27 @@ def pLayout : P String := do
         fmtIdx lay.el_, fmtIdx st.kdof, fmtIdx st.mRows, fmtIdx st.rb_, fmtIdx st.el_, fmtOIdx st.imrb,
         fmtOIdx st.invm, fmtOIdx (rbMassRows st (uncReal == 1)), fmtOIdx (elRows st)])
 
+/-- constructor bookkeeping of a whole problem: the model's own rigid-body detection, `mkLayout`, and
+for `su` the state after `SolveUnc.__init__` -/
+def pState (which : String) : P String := do
+  let h ← pHeader
+  let c := h.c
+  let unc := c.unc cxOps
+  match c.layout cxOps with
+  | .error e => pure ("error " ++ e)
+  | .ok lay =>
+    let base := [if unc then "1" else "0", fmtIdx lay.nonrf, fmtIdx lay.rb, fmtIdx lay.el, fmtIdx lay.rb_,
+      fmtIdx lay.el_]
+    if which == "fd" then pure ("ok " ++ " | ".intercalate base)
+    else
+      let uncReal := unc && !c.cplx
+      match suInit lay (!uncReal) c.mNone with
+      | none => pure "error index-error"
+      | some st =>
+        pure ("ok " ++ " | ".intercalate (base ++ [fmtIdx st.kdof, fmtIdx st.mRows, fmtIdx st.rb_,
+          fmtIdx st.el_, fmtOIdx st.imrb, fmtOIdx st.invm, fmtOIdx (rbMassRows st uncReal),
+          fmtOIdx (elRows st)]))
+
 def answer (line : String) : String :=
   let ws := (line.splitOn " ").filter (· ≠ "")
   let run (p : P String) (rest : List String) : String :=
@@ -190,6 +213,8 @@ def answer (line : String) : String :=
   | "psd" :: rest => run pPsd rest
   | "gauss" :: rest => run pGauss rest
   | "layout" :: rest => run pLayout rest
+  | "state" :: "su" :: rest => run (pState "su") rest
+  | "state" :: "fd" :: rest => run (pState "fd") rest
   | _ => "bad-op"
 
 partial def loop (h : IO.FS.Stream) (out : IO.FS.Stream) : IO Unit := do
